@@ -1,6 +1,8 @@
 import AcraModel.Censor.Chain
 import AcraModel.Censor.Session
 import AcraModel.Censor.Match
+import AcraModel.Censor.MatchGeneralise
+import AcraModel.Censor.MatchSound
 /-!
 # C05 — a statement rejected by the SQL firewall never reaches the database
 
@@ -78,6 +80,31 @@ theorem fact_dispatch :
     (["Select", "Union", "Insert", "Update", "Delete"].map fun k => patternDispatch.lookup k)
       = [some "handleSelectStatement", some "handleUnionStatement", some "handleInsertStatement",
          some "handleUpdateStatement", some "handleDeleteStatement"] := by decide
+
+/-- The two regenerated descriptions of the parse-tree types agree: `fieldTypes` lists exactly the fields of `structFields`, in the same order. -/
+theorem fact_field_tables_agree : fieldTypes.map (fun e => (e.1, e.2.map (·.1))) = structFields := by decide
+
+/-- **The comparator table of the current source is well typed** (`Censor/MatchTyping.lean: fnTyped`): every
+field-by-field comparator compares a part of the query with the same part of the pattern, applies `strings.EqualFold`
+to strings only and `reflect.DeepEqual` / `!=` / `bytes.Equal` only to parts that cannot hold a placeholder, recognises
+the whole-statement placeholder of its own kind by a shortcut, understands `%%WHERE%%` exactly in `Select.Where`, and ends
+in `return true` – except the ten handlers of the statement kinds that are compared with `reflect.DeepEqual` as a whole
+(SET, DDL, SHOW, USE, BEGIN …: patterns for these support no placeholders). -/
+theorem fact_table_typed :
+    (Match.compiled.map (·.1)).filter (fun fn => !Match.okRegular fn) =
+      ["handleSetStatement", "handleDBDDLStatement", "handleDDLStatement", "handleShowStatement", "handleUseStatement",
+       "handleBeginStatement", "handleCommitStatement", "handleRollbackStatement", "handleOtherReadStatement",
+       "handleOtherAdminStatement"] := by decide
+
+/-- Every function that switches on the pattern's type is well typed: each plain case hands the node (or a field of it)
+to a function that accepts it; the hand-written cases are exactly the ones the model writes out. -/
+theorem fact_switches_typed : Match.switchFns.all Match.switchTyped = true := by decide
+
+/-- The five DML statement kinds are dispatched to well-typed comparators that accept exactly that kind. -/
+theorem fact_dml_dispatch : dmlKinds.all (fun k =>
+    match patternDispatch.lookup k with
+    | some h => Match.okRegular h && (Match.domOf h).kinds == [k] && Match.rankOf h == 2 && !Match.kindChanging k
+    | none => false) = true := Match.dml_dispatch
 
 /-! ## the chain -/
 
@@ -236,9 +263,8 @@ statement), proved in its two local halves: congruence for **every** regular nod
 comparison of the body fails the handler returns true – resting on the regenerated `fact_comparators_ok`) and the
 placeholder cases (a generalised literal / identifier / sub-select is accepted whatever the statement has there).
 The closed statement is checked on the real matcher and on the model for every generated statement × subset of ≤ 6
-positions (oracle `pattern-self-mismatch`). **Missing** for a single closed theorem: the induction over *well-typed*
-parse trees that chains the two halves – it needs the static Go type of every field (which comparator is called on
-which child) as a typing judgement over `structFields`. -/
+positions (oracle `pattern-self-mismatch`). The closed statement is `match_generalise` below (the induction over
+well-typed parse trees that chains the two halves); this theorem is kept for the record. -/
 theorem match_generalise_partial (fuel : Nat) :
     (∀ fn fin steps q p, Match.specialFns.contains fn = false → comparators.lookup fn = some (fin, steps) →
       Match.noFalse (Match.evalFn fuel)
@@ -252,6 +278,99 @@ theorem match_generalise_partial (fuel : Nat) :
           ∧ Match.evalFn (fuel + 1) "areEqualSubquery" q (.node "Subquery" [Match.subqueryPattern]) = true) :=
   ⟨fun fn fin steps q p hs hl hall => handler_true_when_all_comparisons_succeed fuel fn q p fin steps hs hl hall,
    fun q => placeholders_match_everything fuel q⟩
+
+/-- **`match_generalise`.** For every statement tree `t` that is well typed (`wellTypedM`: w.r.t. the regenerated Go
+types of `sqlparser/ast.go` – `structFields`/`fieldTypes`/`namedTypes`/`interfaces` – and holding in every compared
+position a value the comparator called on it has a case for) and is a DML statement (SELECT, UNION, INSERT, UPDATE,
+DELETE), and for every generalisation `σ` – any set of its literals (and function calls) replaced by `%%VALUE%%`, tails of
+tuples by `%%LIST_OF_VALUES%%`, identifiers by `%%COLUMN%%`, sub-selects by `(%%SUBQUERY%%)`, WHERE clauses of SELECTs by
+`%%WHERE%%`, select lists by `*`, whole SELECT/UNION/INSERT/UPDATE/DELETE statements by `%%SELECT%%`/… – the pattern
+`generalise t σ` matches `t`: `checkSinglePatternMatch` returns true. Proved by induction over the depth of well-typed
+trees; the per-node-kind step is generic over the regenerated comparator table (`fact_table_typed`,
+`fact_switches_typed`, `fact_comparators_ok`). The harness checks `wellTypedM` on every tree the reflection dump of the
+real parser produces and compares `generalise` with the same generalisation carried out on the real parse tree. -/
+theorem match_generalise (t : Tree) (σ : Sigma) (hwt : wellTypedM t = true) (hdml : dmlKinds.contains t.kind = true) :
+    matchT (generalise t σ) t = true :=
+  Match.matchT_of_isGen hwt hdml (Match.isGen_generalise t σ)
+
+/-- The relational form: *every* pattern in the relation "is a generalisation of" matches – not only those `generalise`
+produces (e.g. a `%%WHERE%%` where the statement has no WHERE clause at all). -/
+theorem match_generalise_rel (t p : Tree) (hwt : wellTypedM t = true) (hdml : dmlKinds.contains t.kind = true)
+    (hg : isGen true false p t = true) : matchT p t = true :=
+  Match.matchT_of_isGen hwt hdml hg
+
+/-- The one case of a type switch the typing judgement excludes (`Match.excludedCases`): `areEqualInsertRows`, case
+`*ParenSelect`, hands the inner statement to `handleSelectStatement`, which accepts a `*Select` only. A parenthesised UNION
+as INSERT rows would therefore not even match itself – but the grammar (`insert_data`) drops the parentheses, no parse
+tree contains this shape (checked on every dumped tree), the case is dead code. -/
+theorem insertRows_parenSelect_counterexample :
+    let sel (n : String) := Match.selectDual (Match.sqlVal "1" (strBytes n))
+    let u : Tree := .node "Union" [Match.lf "union", sel "1", sel "2", .node "OrderBy" [], Tree.nil, Match.lf ""]
+    let ins : Tree := .node "Insert" [Match.lf "insert", .node "Comments" [], Match.lf "", Match.tName "t1", Match.lf "false",
+      .node "Partitions" [], .node "Columns" [], .node "ParenSelect" [u], .node "OnDup" [], .node "Returning" []]
+    wellTyped ins = true ∧ Match.acc ins = false ∧ matchT ins ins = false := by
+  decide
+
+/-! ### the converse direction -/
+
+/-- `match_sound_on_literals` ("a pattern without placeholders matches only statements equal to it up to what the
+comparators ignore"), proved in its local halves – for **every** comparator of the regenerated table and the two leaf
+comparators:
+
+1. a field-by-field comparator that returns `true` either ran through with *every* comparison passing and ends in
+   `return true`, or was stopped with `true` by one of exactly three kinds of step: the nil guard (both sides nil), a
+   whole-statement shortcut (`p` *is* `%%SELECT%%`/`%%UNION%%`/…), the `%%WHERE%%` escape (`isWherePattern(p.Where)`);
+2. `areEqualSQLVal` on a pattern that is neither `%%VALUE%%` nor `%%LIST_OF_VALUES%%` means same literal type and bytes;
+   `areEqualColIdent` on a pattern that is not `%%COLUMN%%` means the same name up to ASCII letter case.
+
+What the comparators do **not** look at (so a literal pattern also matches statements differing there): letter case of
+keywords/operators/identifiers (`strings.EqualFold`, `ColIdent.Equal`); table identifiers up to `CompliantName`
+(`compliant_name_counterexample`, known finding `pattern-table-compliant-name`); `SQLVal.CastType`, `Limit.Type`
+(`limit 1, 2` = `limit 2 offset 1`), `Insert.Default`, quoting flags of identifiers; a select list consisting of a lone `*`
+matches every select list (by design). On the pinned tree they also ignored RETURNING, `UPDATE … FROM` and `UNION` vs
+`UNION ALL` – an allow-rule bypass (`insert into t1 (a) values (%%VALUE%%)` matched `… returning (select password from
+users limit 1)`), repaired (`fix:` 46; `returning_is_compared`).
+**Missing** for the closed theorem: the induction over well-typed trees that chains (1) and (2) into a structural
+relation between `p` and `t` (it needs the converse of `cstep_good` for every step shape and the list of fields each
+comparator reads as a regenerated fact). -/
+theorem match_sound_on_literals_partial (fuel : Nat) :
+    (∀ fn fin steps q p, Match.specialFns.contains fn = false → Match.compiled.lookup fn = some (fin, steps) →
+      Match.evalFn (fuel + 1) fn q p = true →
+      steps.any (Match.cstepRetTrue (Match.evalFn fuel) (Match.escEval (Match.evalFn fuel)) q p) = true
+      ∨ (fin = true ∧ steps.all (Match.cstepPasses (Match.evalFn fuel) (Match.escEval (Match.evalFn fuel)) q p) = true))
+    ∧ (∀ call esc q p i a, (Match.atomAt call esc q p i a).isRetTrue = true →
+        (a = .nilboth ∧ q.isNil = true ∧ p.isNil = true)
+        ∨ (∃ o ph x c, a = .shortcut o ph ∧ Match.selO i q p o = some x ∧ Match.placeholderStmt ph = some c ∧ (x == c) = true)
+        ∨ (∃ e ea c a' b x, a = .cmpEsc e ea c a' b ∧ Match.selO i q p ea = some x ∧ esc e x = true))
+    ∧ (∀ q p, Match.evalFn (fuel + 1) "areEqualSQLVal" q p = true → Match.isValuePattern p = false →
+        Match.isListOfValuesPattern p = false →
+        (Match.fld q "Type").leafBytes = (Match.fld p "Type").leafBytes ∧ (Match.fld q "Val").leafBytes = (Match.fld p "Val").leafBytes)
+    ∧ (∀ q p, Match.evalFn (fuel + 1) "areEqualColIdent" q p = true → Match.isColumnPattern p = false →
+        lowerBytes (Match.fld q "val").leafBytes = lowerBytes (Match.fld p "val").leafBytes) :=
+  ⟨fun fn fin steps q p hs hl h => by
+      rw [Match.evalFn_compiled fuel fn q p fin steps hs hl] at h
+      exact Match.runC_true_inv _ _ q p fin steps h,
+   fun call esc q p i a h => Match.atom_retTrue_kinds call esc q p i a h,
+   fun q p h hv hl => Match.sqlVal_sound fuel q p h hv hl,
+   fun q p h hc => Match.colIdent_sound fuel q p h hc⟩
+
+/-- A literal pattern matches a statement on a *different table*: table identifiers are compared after
+`CompliantName()` (every character that is not a letter, `_`, `@` or a non-leading digit becomes `_`), so the pattern
+`select a from a_b` matches ``select a from `a-b` `` – known finding `pattern-table-compliant-name`, replayed on the real
+matcher by the regression corpus. -/
+theorem compliant_name_counterexample :
+    let stmt (tbl : String) := Match.selectOf [Match.aliased (Match.cName "a")] [Match.aliasedTable tbl] Tree.nil
+    matchT (stmt "a_b") (stmt "a-b") = true ∧ (stmt "a_b" == stmt "a-b") = false := by
+  decide
+
+/-- After the repair the RETURNING clause is compared: an INSERT pattern without RETURNING no longer matches the same
+INSERT with one (on the pinned tree it did – `Insert.Returning` was read by no comparator). -/
+theorem returning_is_compared :
+    let ins (ret : List Tree) : Tree := .node "Insert" [Match.lf "insert", .node "Comments" [], Match.lf "", Match.tName "t1", Match.lf "false",
+      .node "Partitions" [], .node "Columns" [Match.cIdent "a"],
+      .node "Values" [.node "ValTuple" [Match.sqlVal "1" (strBytes "1")]], .node "OnDup" [], .node "Returning" ret]
+    matchT (ins []) (ins [Match.aliased (Match.cName "a")]) = false ∧ matchT (ins []) (ins []) = true := by
+  decide
 
 /-! ## sessions -/
 
@@ -328,5 +447,12 @@ example :
 
 /-- `queue_aligned`'s hypothesis is satisfiable by a session with denied and allowed statements and completions -/
 example : wellFormed (fun q => q == "d") 0 [.query "a", .query "d", .dbDone, .query "b", .query "d", .dbDone] = true := by decide
+
+/-- `match_generalise` is not vacuous: `select 7 from dual` is a well-typed DML tree, generalising its literal gives a
+different tree, which matches. -/
+example :
+    let t := Match.selectDual (Match.sqlVal "1" (strBytes "7"))
+    wellTypedM t = true ∧ dmlKinds.contains t.kind = true ∧ (generalise t [(7, .value)] == t) = false := by
+  decide
 
 end AcraModel.Props.C05
